@@ -110,10 +110,27 @@ func famOwn() []explore.Event {
 	}
 }
 
+// flag-replace: STORE FLAGS (replacement form) over several messages, body fetches that set \Seen as a side
+// effect, re-SELECT (so that messages are not \Recent), from both sessions.
+func famFlagReplace() []explore.Event {
+	return []explore.Event{
+		ev("deliver", 0), ev("deliver", 1),
+		ev("cmd", 1, `STORE 1:2 FLAGS (\Flagged)`),
+		ev("cmd", 1, `FETCH 1 (BODY[])`),
+		ev("cmd", 1, `FETCH 2 (RFC822.TEXT)`),
+		ev("cmd", 1, `STORE 2 FLAGS ()`),
+		ev("cmd", 1, `UID STORE 1:* FLAGS.SILENT (\Seen)`),
+		ev("cmd", 0, `SELECT INBOX`),
+		ev("cmd", 0, `STORE 1:* FLAGS (\Flagged)`),
+		ev("cmd", 0, `FETCH 2 (BODY[])`),
+		ev("cmd", 0, "NOOP"),
+	}
+}
+
 func famUnion() []explore.Event {
 	seen := map[string]bool{}
 	var out []explore.Event
-	for _, f := range [][]explore.Event{famArrivalFlags(), famRemoval(), famIdle(), famOwn()} {
+	for _, f := range [][]explore.Event{famArrivalFlags(), famRemoval(), famIdle(), famOwn(), famFlagReplace()} {
 		for _, e := range f {
 			if !seen[e.String()] {
 				seen[e.String()] = true
@@ -131,6 +148,7 @@ func sessionFamilies(oracles []string, d, dUnion int) []explore.Family {
 		mboxFam("removal+readd", d, oracles, 3, sel3, famRemoval()),
 		mboxFam("idle", d, oracles, 2, nil, famIdle()),
 		mboxFam("own-commands", d, oracles, 2, nil, famOwn()),
+		mboxFam("flag-replace", d, oracles, 2, nil, famFlagReplace()),
 		mboxFam("union", dUnion, oracles, 3, sel3, famUnion()),
 	}
 }
